@@ -16,6 +16,12 @@ Implementation driven (all in-process, real code):
     configuration, references and variables; environments, application dependencies, status, output;
  D. the same as C with hostile texts (%, =, :, #, ;, inner blanks, multi-line texts) in values, and, rarely, the texts
     and variable names at the boundary of the guard of theorem C19_text_roundtrip (open findings F19e-F19h);
+ G. per group of options (every prefix of the option paths: the options one writer handles together) the subsets of its
+    members, same functions as A/B: the options of a group are written and read independently of each other;
+ L. the same as C for workflows of 11-21 stages (stage indices of two digits in file names, section names, references,
+    `stages` lists of outputs, status sections, stage variables, blueprints; replica counts of two and three digits);
+ S. stage indices spelled as text alone (harness/c19_stages.py): _dump_output/parse_output and _dump_status/parse_status on
+    arbitrary indices and hand-written texts, against coq/Dosini/Stages.v;
  T. the configparser text layer alone (harness/c19_text.py): tables of sections through the real FlowConfigParser
     (add_section/set/write, read) and hostile raw texts through its reader, against coq/Dosini/Text.v.
 The per-component model comparison of C/D goes through both layers (Model.via_file).
@@ -31,6 +37,7 @@ import common
 from common import cstr, clist, copt, cpair
 import c19_gen
 import c19_text
+import c19_stages
 from c19_gen import flatten, unflatten, cval
 
 PROP = 'C19'
@@ -49,6 +56,11 @@ ASSUMPTIONS = [
     'option values None (unset) are not written by the format: generated components never override a non-empty default '
     'with None; variables are compared by their text (the format stores text)',
     'instance dumps fold global variables into every stage: variables are compared per component after resolution',
+    'an option is expressible in the format when the writers emit it or the reader has an ini key for it; the translation tables '
+    'are measured with one option at a time, that the options of a group do not depend on each other is checked by the '
+    'correspondence on the subsets of every group (stream G) against the per-option model',
+    'stage indices spelled as text (stage10, STAGE10): int() is modelled for decimal digits (coq/Dosini/Stages.v); a sign, blanks or '
+    '_ separators after the word stage are not generated',
 ]
 HEADER = 'Require Import V.Lib.JTree V.Dosini.Codec V.Dosini.Generated V.Dosini.Text V.Dosini.Model.\nOpen Scope string_scope.'
 
@@ -109,6 +121,7 @@ def kinds():
     conversion of the reader's row for the ini key; when the reader has no row for that key (a broken table) the
     values are still generated: by the reader's row for the same path, else by the writer's rendering."""
     by_path = {row[0]: row[1] for row in MEASURED['parse'].values()}
+    by_key = {row[0]: k for k, row in sorted(MEASURED['parse'].items(), reverse=True)}
     fallback = {'DStr': 'PStr', 'DLower': 'PBool', 'DBool': 'PBool', 'DJoin': 'PList'}
     out = {}
     for p in MEASURED['paths']:
@@ -118,7 +131,30 @@ def kinds():
                 out[p] = (ik, dc, MEASURED['parse'][ik][1], MEASURED['parse'][ik][2])
             else:
                 out[p] = (ik, dc, by_path.get(p, fallback[dc]), [])
+        elif p in by_key:
+            # the reader has an ini key for this option but the writers, probed with this option alone, emit nothing:
+            # the format can express it (it is not one of the options without any spelling in the format), so it is
+            # generated and expected back like every other option
+            out[p] = (by_key[p], 'DStr', by_path[p], [])
     return out
+
+
+def option_groups():
+    """{prefix: [option paths]} for every prefix of the option paths with at least two members: the options one writer
+    (_comp_command_to_dict, _comp_executors_to_str, _comp_resource_manager_to_str ...) or one of its branches handles
+    together.  Prefixes with the same members are listed once."""
+    groups, seen = {}, set()
+    by_prefix = {}
+    for p in sorted(kinds()):
+        ks = p.split('.')
+        for i in range(1, len(ks)):
+            by_prefix.setdefault('.'.join(ks[:i]), []).append(p)
+    for g in sorted(by_prefix):
+        m = tuple(by_prefix[g])
+        if len(m) >= 2 and m not in seen:
+            seen.add(m)
+            groups[g] = list(m)
+    return groups
 
 
 def ccomp(opts, variables):
@@ -168,10 +204,13 @@ def component_roundtrip(opts, variables):
 
 
 def explore_components(ctx, cases, tag):
-    """cases: list of (opts, variables).  Predicate + three model comparisons."""
+    """cases: list of (opts, variables) or (opts, variables, stream tag).  Predicate + three model comparisons."""
     K = kinds()
     t_case, t_dump, t_parse, keep = [], [], [], []
-    for opts, variables in cases:
+    default_tag = tag
+    for case in cases:
+        opts, variables = case[0], case[1]
+        tag = case[2] if len(case) > 2 else default_tag
         ini, out, outvars, exc = component_roundtrip(opts, variables)
         nontrivial = len(opts) + len(variables) >= 1
         ctx.case([tag, sorted((k, repr(v)) for k, v in opts.items()), sorted(variables.items())], nontrivial)
@@ -194,7 +233,9 @@ def explore_components(ctx, cases, tag):
             lost = sorted(set(expect) - set(out))
             extra = sorted(set(out) - set(expect))
             changed = sorted(p for p in expect if p in out and not same_value(p, expect[p], out[p]))
-            if lost:
+            if lost and K[lost[0]][0] not in ini:
+                ctx.fail(desc, 'option %s is not written although the format spells it %s' % (lost[0], K[lost[0]][0]), cls)
+            elif lost:
                 ctx.fail(desc, 'option %s is written but not read back' % lost[0], cls)
             if extra:
                 ctx.fail(desc, 'option %s appears after the round trip' % extra[0], cls)
@@ -215,7 +256,7 @@ def explore_components(ctx, cases, tag):
     for terms, chk, name in ((t_dump, 'check_dump', 'C19 writers: Dosini._flowir_component_to_dict vs Dosini.Model.dump_c'),
                              (t_parse, 'check_parse', 'C19 reader: Dosini.parse_component vs Dosini.Model.parse_c'),
                              (t_case, 'check_case', 'C19 component round trip vs Dosini.Model.roundtrip_c')):
-        bad = ctx.model_mismatches(HEADER, terms, chk, chunk=250, name='%s_%s' % (tag, chk))
+        bad = ctx.model_mismatches(HEADER, terms, chk, chunk=250, name='%s_%s' % (default_tag, chk))
         for k, i in enumerate(bad):
             desc, ini, out = keep[i]
             ctx.disagree(desc, {'section': ini, 'loaded': out},
@@ -261,21 +302,65 @@ def random_component_cases(rng, n):
     return cases
 
 
+def group_subset_cases(rng, thorough=False):
+    """stream G: the members of a group of options are independent of each other.  For every group (option_groups): every
+    subset of two or more members when the group has at most five; otherwise the whole group, the group without each one of
+    its members, every pair (groups of up to eight members; all groups in the thorough tier) and ten random subsets.  The
+    single members are stream A."""
+    import itertools
+    K = kinds()
+    cases = []
+    for g, members in sorted(option_groups().items()):
+        n = len(members)
+        subsets = []
+        if n <= 5:
+            for k in range(2, n + 1):
+                subsets.extend(itertools.combinations(members, k))
+        else:
+            subsets.append(tuple(members))
+            subsets.extend(tuple(m for m in members if m != out) for out in members)
+            if n <= 8 or thorough:
+                subsets.extend(itertools.combinations(members, 2))
+            for _ in range(10):
+                subsets.append(tuple(sorted(rng.sample(members, rng.randrange(2, n)))))
+        for sub in subsets:
+            cases.append(({p: pick_value(rng, p, K[p][2], False) for p in sub}, {}))
+    return cases
+
+
 # ------------------------------------------------------------------ generators: instances
-def gen_doc(rng, cover, hostile=False):
-    """one workflow description; `cover` is a list of option paths that must be used by this workflow"""
+def stage_weights(n):
+    """n weights with four decimals whose decimal sum is 1 (written with str(), read with float())"""
+    from decimal import Decimal
+    base = (Decimal(1) / n).quantize(Decimal('0.0001'))
+    return [float(base)] * (n - 1) + [float(1 - base * (n - 1))]
+
+
+def gen_doc(rng, cover, hostile=False, long=False):
+    """one workflow description; `cover` is a list of option paths that must be used by this workflow.
+    long: more than ten stages (indices of two digits in stage file names, section names STAGE10, references to
+    stage10.X, `stages` lists of outputs, stage variables, blueprints); most stages hold one tiny component"""
     K = kinds()
     paths = sorted(K)
-    nstages = rng.choice([1, 2, 2, 3])
+    groups = option_groups()
+    nstages = rng.choice([11, 12, 13, 21]) if long else rng.choice([1, 2, 2, 3])
+    rich = set(range(nstages))
+    if long:
+        rich = {rng.randrange(0, 10), rng.randrange(10, nstages), nstages - 1}
     comps = []
     names = ['A', 'B', 'Gen', 'merge', 'w3', 'Post-1', 'x_y', 'C7']
     todo = list(cover)
     prev = []
     for s in range(nstages):
-        for _ in range(rng.choice([1, 1, 2, 3])):
+        for _ in range(rng.choice([1, 1, 2, 3]) if s in rich else 1):
             name = rng.choice([n for n in names if (s, n) not in [(c['stage'], c['name']) for c in comps]])
-            chosen = set(rng.sample(paths, rng.choice([0, 2, 4, 7])))
-            take = rng.choice([3, 6, 10])
+            chosen = set(rng.sample(paths, rng.choice([0, 2, 4, 7]))) if s in rich else set()
+            take = rng.choice([3, 6, 10]) if s in rich else 0
+            if groups and rng.random() < 0.35:
+                # of one group of options exactly a random part (the options of a group do not depend on each other)
+                members = groups[rng.choice(sorted(groups))]
+                chosen -= set(members)
+                chosen |= set(rng.sample(members, rng.randrange(1, len(members) + 1)))
             chosen |= set(todo[:take])
             todo = todo[take:]
             opts = {}
@@ -289,7 +374,7 @@ def gen_doc(rng, cover, hostile=False):
             # a docker executor needs both of its fields to be a valid executor entry; keep what was chosen
             refs = []
             if prev and rng.random() < 0.7:
-                ps, pn = rng.choice(prev)
+                ps, pn = rng.choice(prev[-3:] if long and rng.random() < 0.6 else prev)
                 refs.append('stage%d.%s:%s' % (ps, pn, rng.choice(['ref', 'copy', 'output'])))
             if rng.random() < 0.3:
                 refs.append('data/input.txt:copy')
@@ -311,7 +396,7 @@ def gen_doc(rng, cover, hostile=False):
     # replication: an aggregating consumer of a replicated producer
     if rng.random() < 0.4 and nstages >= 2:
         first = comps[0]
-        first.setdefault('workflowAttributes', {})['replicate'] = rng.choice([2, 3])
+        first.setdefault('workflowAttributes', {})['replicate'] = rng.choice([10, 12, 101] if long else [2, 3, 11])
         comps.append({'name': 'Agg', 'stage': nstages - 1, 'command': {'executable': 'cat', 'arguments': 'stage0.%s:ref' % first['name']},
                       'references': ['stage0.%s:ref' % first['name']], 'workflowAttributes': {'aggregate': True}})
     if not hostile and rng.random() < 0.06:
@@ -337,7 +422,7 @@ def gen_doc(rng, cover, hostile=False):
     doc = {'components': comps,
            'variables': {'default': {'global': gvars,
                                      'stages': {s: {'stagevar%d' % s: 'S%d' % s, 'n': str(2 + s)} for s in range(nstages)
-                                                if rng.random() < 0.6}}},
+                                                if rng.random() < 0.6 or (long and s >= 10)}}},
            'environments': {'default': {}}, 'platforms': ['default']}
     envs = doc['environments']['default']
     # environment names may hold hyphens (section ENV-GPU-ENV) and share their first token
@@ -353,24 +438,36 @@ def gen_doc(rng, cover, hostile=False):
     if rng.random() < 0.5:
         doc['platforms'] = ['default', 'plat']
         doc['variables']['plat'] = {'global': {'q': 'platq', 'extra': 'E'}, 'stages': {0: {'n': '7'}}}
+        if long:
+            doc['variables']['plat']['stages'][rng.randrange(10, nstages)] = {'n': '70', 'platvar': 'P'}
         doc['environments']['plat'] = {'envA': {'PATH': '/plat/bin:$PATH'}}
     if rng.random() < 0.4:
         doc['blueprint'] = {'default': {'global': {'resourceManager': {'config': {'walltime': 480.0}, 'lsf': {'statusRequestInterval': 60}}},
                                         'stages': {0: {'command': {'environment': 'envA'}}}}}
-    if rng.random() < 0.7:
+        if long:
+            doc['blueprint']['default']['stages'][rng.randrange(10, nstages)] = {'resourceRequest': {'numberThreads': 2}}
+    if rng.random() < 0.7 or long:
         # weights with up to four decimals (they are written with str() and read back with float())
         ws = rng.choice({1: [[1.0]], 2: [[0.25, 0.75], [0.125, 0.875], [0.3333, 0.6667]],
-                         3: [[0.5, 0.25, 0.25], [0.125, 0.375, 0.5], [0.005, 0.045, 0.95]]}[nstages])
+                         3: [[0.5, 0.25, 0.25], [0.125, 0.375, 0.5], [0.005, 0.045, 0.95]]}.get(nstages, [stage_weights(nstages)]))
         doc['status-report'] = {s: {'stage-weight': ws[s]} for s in range(nstages)}
+        if long:
+            late = rng.choice([c for c in comps if c['stage'] >= 10])
+            doc['status-report'][late['stage']].update({'executable': 'bin/late.sh', 'arguments': '%s:ref' % late['name'],
+                                                        'references': ['%s:ref' % late['name']]})
         if rng.random() < 0.5:
             doc['status-report'][0].update({'executable': 'bin/progress.sh', 'arguments': '-x %s:ref' % comps[0]['name'],
                                             'references': ['%s:ref' % comps[0]['name']]})
-    if rng.random() < 0.7:
+    if rng.random() < 0.7 or long:
         last = comps[-1]
         doc['output'] = {'Result': {'data-in': 'stage%d.%s/out.csv:copy' % (last['stage'], last['name']),
                                     'description': '"the result"', 'type': 'csv', 'stages': [last['stage']]}}
         if rng.random() < 0.4:
             doc['output']['Log'] = {'data-in': '%s/log.txt:ref' % comps[0]['name'], 'stages': [0, nstages - 1]}
+        if long:
+            # the same file produced by several stages, named by indices of one and of two digits
+            some = sorted(set(rng.sample(range(nstages), 3)) | {rng.randrange(10, nstages)})
+            doc['output']['Checkpoints'] = {'data-in': 'checkpoint.tar:copy', 'type': 'tar', 'stages': some}
     platform = 'plat' if 'plat' in doc['platforms'] and rng.random() < 0.6 else 'default'
     return {'doc': doc, 'platform': platform}
 
@@ -531,7 +628,9 @@ def classes_of_workflow(w):
 
 def explore_instances(ctx, workflows, tag):
     terms, keep = [], []
+    default_tag = tag
     for w in workflows:
+        w, tag = w if isinstance(w, tuple) else (w, default_tag)
         r = instance_roundtrip(w)
         doc = w['doc']
         ncomp = len(doc['components'])
@@ -574,7 +673,7 @@ def explore_instances(ctx, workflows, tag):
         if ncomp >= 2:
             ctx.sample({'stream': tag, 'platform': w['platform'], 'components': ['stage%d.%s' % (c['stage'], c['name']) for c in doc['components']],
                         'first_component': doc['components'][0]}, limit=8)
-    bad = ctx.model_mismatches(HEADER, terms, 'check_file_case', chunk=150, name='%s_inst' % tag)
+    bad = ctx.model_mismatches(HEADER, terms, 'check_file_case', chunk=150, name='%s_inst' % default_tag)
     for k, i in enumerate(bad):
         desc, c, lc = keep[i]
         ctx.disagree(dict(desc, component=c), lc,
@@ -583,6 +682,20 @@ def explore_instances(ctx, workflows, tag):
 
 
 # ------------------------------------------------------------------ corpus (witnesses of repaired defects run first)
+def int_keys(w):
+    """a workflow read from a JSON file (corpus, replay): the stage indices that key dictionaries are integers again"""
+    def conv(d):
+        return {(int(k) if isinstance(k, str) and k.isdigit() else k): v for k, v in (d or {}).items()}
+    doc = w['doc']
+    if 'status-report' in doc:
+        doc['status-report'] = conv(doc['status-report'])
+    for sec in ('variables', 'blueprint'):
+        for plat in (doc.get(sec) or {}).values():
+            if isinstance(plat, dict) and 'stages' in plat:
+                plat['stages'] = conv(plat['stages'])
+    return w
+
+
 def corpus():
     comps, flows = [], []
     d = os.path.join(common.VERIF, 'harness', 'corpus', 'c19')
@@ -591,7 +704,7 @@ def corpus():
         if x.get('kind') == 'component':
             comps.append((x['options'], x.get('variables', {})))
         elif x.get('kind') == 'workflow':
-            flows.append(x['workflow'])
+            flows.append(int_keys(x['workflow']))
     return comps, flows
 
 
@@ -599,7 +712,10 @@ def corpus():
 def run(ctx):
     rng = ctx.rng
     ctx.rule = ('stream A: one expressible option x one value of its kind (constants of the type, variable references, '
-                'special values); B: random components (2..all options, 0..4 variables); C/D: generated workflows (1-3 stages, '
+                'special values); B: random components (2..all options, 0..4 variables); G: per group of options (every prefix of the '
+                'option paths with two or more members) every subset of a small group, and of a large one the whole, all-but-one, pairs '
+                'and random subsets; L: workflows of 11-21 stages (one tiny component in most stages; references, outputs, status, stage '
+                'variables and blueprints naming stages 10+; replica counts 10+); C/D: generated workflows (1-3 stages, '
                 'options cycled so that every expressible option is used in every run, variables of all scopes, environments, '
                 'platform, blueprint, replication, status, output; D with hostile and multi-line texts, 12% with one text or variable name at '
                 'the boundary of the text layer); T: tables of sections (half inside the guard of C19_text_roundtrip, half with hostile '
@@ -622,8 +738,10 @@ def run(ctx):
         return
     quick = ctx.tier == 'quick'
     ccomps, cflows = corpus()
-    explore_components(ctx, ccomps + single_option_cases(), 'A')
-    explore_components(ctx, random_component_cases(rng, 250 if quick else 2500), 'B')
+    # one evaluation inside Coq per comparison for the three streams of components
+    explore_components(ctx, [c + ('A',) for c in ccomps + single_option_cases()] +
+                       [c + ('B',) for c in random_component_cases(rng, 250 if quick else 2500)] +
+                       [c + ('G',) for c in group_subset_cases(rng, thorough=not quick)], 'ABG')
     K = kinds()
     paths = sorted(K)
     flows = list(cflows)
@@ -634,8 +752,11 @@ def run(ctx):
         # the options of one pass are spread over a few workflows
         for i in range(0, len(order), 18):
             flows.append(gen_doc(rng, order[i:i + 18]))
-    explore_instances(ctx, flows, 'C')
-    explore_instances(ctx, [gen_doc(rng, rng.sample(paths, 10), hostile=True) for _ in range(15 if quick else 150)], 'D')
+    flows = [(w, 'C') for w in flows]
+    flows += [(gen_doc(rng, rng.sample(paths, 12), long=True), 'L') for _ in range(6 if quick else 60)]
+    flows += [(gen_doc(rng, rng.sample(paths, 10), hostile=True), 'D') for _ in range(15 if quick else 150)]
+    explore_instances(ctx, flows, 'CLD')
+    c19_stages.explore(ctx, 60 if quick else 600)
     c19_text.explore(ctx, 120 if quick else 1200, 120 if quick else 1200)
     used = set(k[7:] for k in ctx.hist if k.startswith('option:'))
     missing = sorted(set(paths) - used)
@@ -650,10 +771,12 @@ def replay(ctx, path):
     if not c or GEN_ERROR:
         print('replay file names no input (proof/table obligation): re-run ./check C19; generation error: %s' % GEN_ERROR)
         return 2
-    if 'table' in c or 'text' in c:
+    if c.get('stream') == 'S':
+        c19_stages.explore(ctx, 0, only=c)
+    elif 'table' in c or 'text' in c:
         c19_text.explore(ctx, 0, 0, only_table=c.get('table'), only_text=c.get('text') if 'table' not in c else None)
     elif 'workflow' in c:
-        explore_instances(ctx, [c['workflow']], c.get('stream', 'C'))
+        explore_instances(ctx, [int_keys(c['workflow'])], c.get('stream', 'C'))
     else:
         explore_components(ctx, [(c['options'], c.get('variables', {}))], c.get('stream', 'A'))
     for f in ctx.failures:
